@@ -9,19 +9,33 @@
   What is proved here for *all* coordinates and record lengths:
     overlap / containment / distance (line and ring, single- and multi-part, incl. origin-spanning)
     connect on a linear record (exact hull, argument order, idempotence, strand rule)
-    connect of two single-part locations on a ring (covers, well-formed, ≤ hull, shortest arc when < half)
+    connect on a ring for ANY non-empty list of `RingIn` locations — parts inside the record; either not
+      bridging the origin (single parts, genes with introns) or splittable at it (origin-spanning spans,
+      origin-bridging genes): never fails, covers every input, well-formed span, independent of the
+      argument order, idempotent; never longer than the line hull (`RingInSpan`: no origin-bridging genes);
+      inside every covering span shorter than half the record, hence the shortest covering arc whenever one
+      shorter than half exists, with length `shortestArc L (canon …)` — the executable formula the driver
+      evaluates (`RingInStrict`: single parts and origin-spanning spans; for all `RingIn` with the inputs
+      read as spans).  Via the closed form `connR` of Proofs/LocRing{Sort,Split,Hull,Merge}.lean,
+      LocConnectRing{N,In,Cover,Hull,Short,Perm,Arc}.lean, CanonIvs.lean, ShortestArc.lean; the two-input
+      theorem `connect_ring_two` (explicit gap formula) is kept
     offset of a single-part location and of an origin-spanning span on a ring (rotation of the same bases)
     extension of a single-part location on a linear and on a circular record (exactly the bases within the distance)
+    extension of an origin-spanning span on a circular record: exactly the bases within the distance for every
+      d ≥ 0; a well-formed span under the distance cap of `_extend_area_location` (without the cap the code can
+      return three overlapping parts: `extend_ring_area_three_parts_start/_end`, replayed on the real code)
     the feature ordering is a strict weak order
   Carried by the exhaustive small-scope correspondence + executable set-of-bases spec only
-  (see DESIGN.md): connect on a ring for more than two or for origin-spanning inputs (cover / well-formed /
-  shortest arc), extension of multi-part locations, offset of multi-exon gene locations.
+  (see DESIGN.md): the error paths of connect (inputs that bridge the origin but cannot be split);
+  extension of multi-exon and of reverse-strand origin-spanning locations; offset of multi-exon gene locations.
 -/
 import ASV.Proofs.LocOrder
 import ASV.Proofs.LocString
 import ASV.Proofs.LocExtend
 import ASV.Proofs.LocConnectRing
 import ASV.Proofs.LocOffsetArea
+import ASV.Proofs.LocConnectRingArc
+import ASV.Proofs.LocExtendArea
 namespace ASV.C04
 open ASV
 
@@ -134,6 +148,124 @@ theorem connect_ring_two (a b : Part) (L : Int) (ha : a.OK L) (hb : b.OK L) (hL 
         r.len = L - max (lineGapSigned a b) (originGap a b L)) :=
   connect_two_ring a b L ha hb hL
 
+/-- `RingIn L l`: `l` has at least one part, all parts are non-empty and inside `[0, L]`, and if `l`
+    bridges the origin (`location_bridges_origin`) it can be split there
+    (`split_origin_bridging_location` does not raise).  This includes every single part of any strand
+    (simple location or one-part compound), genes with introns, the origin-spanning span
+    `areaTwo x y L s` = `[x, L) + [0, y)` with `0 < y ≤ x < L` for any single strand `s`, the
+    reverse-strand part order `areaTwoRev`, and origin-bridging genes with introns
+    (`RingInSpan.ringIn`, `RingInStrict.ringIn`).
+
+    Connecting ANY non-empty list of such locations on a ring of length `L > 0` succeeds (no
+    ValueError, no failed assertion, no unbounded recursion), the result covers every base of every
+    input, and it is a well-formed span: one part inside the record, or two parts meeting at the
+    origin. -/
+theorem connect_ring_covers_wf (ls : List Loc) (L : Int) (hne : ls ≠ []) (hL : 0 < L) (hin : ∀ l ∈ ls, RingIn L l) :
+    ∃ r, connect ls (some L) = .ok r ∧
+      (∀ l ∈ ls, ∀ i, l.mem i = true → r.mem i = true) ∧
+      areaWF L L r = true := by
+  refine ⟨_, connect_ring_closed ls L hne hL hin, ?_, ?_⟩
+  · intro l hl i hi
+    exact connR_covers _ L hL (toR_ok L hL ls hin) (toR l) (List.mem_map.2 ⟨l, hl, rfl⟩) i
+      ((toR_spec L hL l (hin l hl)).2.2.2 i hi)
+  · exact connR_wf _ L hL (by simpa using hne) (toR_ok L hL ls hin)
+
+/-- … it is never longer than the line hull `max end − min start` of the inputs (`RingInSpan`:
+    locations that do not bridge the origin and the origin-spanning spans `areaTwo` / `areaTwoRev`,
+    which reach both record ends; for an origin-bridging gene that does not, see
+    `connect_ring_hull_not_for_bridging_genes`) … -/
+theorem connect_ring_le_hull (ls : List Loc) (L : Int) (hne : ls ≠ []) (hL : 0 < L) (hin : ∀ l ∈ ls, RingInSpan L l) :
+    ∃ r, connect ls (some L) = .ok r ∧ r.len ≤ maxList (ls.map (·.end)) - minList (ls.map (·.start)) := by
+  have hin' : ∀ l ∈ ls, RingIn L l := fun l hl => (hin l hl).ringIn
+  refine ⟨_, connect_ring_closed ls L hne hL hin', ?_⟩
+  have h := connR_le_hull _ L hL (by simpa using hne) (toR_ok L hL ls hin')
+  have e1 : ((ls.map toR).map (RLoc.toLoc L)).map (·.start) = ls.map (·.start) := by
+    rw [List.map_map, List.map_map]
+    exact List.map_congr_left fun l hl => (toR_start_end L hL l (hin l hl)).1
+  have e2 : ((ls.map toR).map (RLoc.toLoc L)).map (·.end) = ls.map (·.end) := by
+    rw [List.map_map, List.map_map]
+    exact List.map_congr_left fun l hl => (toR_start_end L hL l (hin l hl)).2
+  rw [e1, e2] at h
+  exact h
+
+/-- the origin-bridging gene `[50, 100) + [5, 10)` is read as the span `[50, 100) + [0, 10)`; with `[8, 60)` the
+    result is the whole record, five bases more than the line hull `100 − 5` -/
+theorem connect_ring_hull_not_for_bridging_genes :
+    connect [.compound [⟨50, 100, .fwd⟩, ⟨5, 10, .fwd⟩], .simple ⟨8, 60, .fwd⟩] (some 100) = .ok (.simple ⟨0, 100, .fwd⟩) := by
+  rfl
+
+/-- … and it is the shortest covering arc whenever one shorter than half the record exists: the
+    result has no base outside ANY well-formed span `c` (one part, or two parts meeting at the
+    origin) that covers all inputs and is shorter than half the record, and is not longer than `c`.
+    (`RingInStrict`: single parts and origin-spanning spans.  A location with several parts that does
+    not bridge the origin is first reduced to its line hull, which can contain more than the arc:
+    e.g. `[x, L)(−) + [0, y)(−)`, in Biopython's part order an ordinary two-exon reverse-strand gene,
+    becomes `[0, L)` — see `connect_ring_two_exon_reverse` below.) -/
+theorem connect_ring_shortest (ls : List Loc) (L : Int) (hne : ls ≠ []) (hL : 0 < L)
+    (hin : ∀ l ∈ ls, RingInStrict L l) (c : Loc) (hwf : areaWF L L c = true) (hlen : 2 * c.len < L)
+    (hcov : ∀ l ∈ ls, ∀ i, l.mem i = true → c.mem i = true) :
+    ∃ r, connect ls (some L) = .ok r ∧ r.len ≤ c.len ∧ ∀ i, r.mem i = true → c.mem i = true := by
+  have hin' : ∀ l ∈ ls, RingIn L l := fun l hl => (hin l hl).ringIn
+  refine ⟨_, connect_ring_closed ls L hne hL hin', ?_⟩
+  apply connR_shortest _ L hL (by simpa using hne) (toR_ok L hL ls hin') c hwf hlen
+  intro r hr i hi
+  obtain ⟨l, hl, rfl⟩ := List.mem_map.1 hr
+  exact hcov l hl i ((toR_mem_iff L hL l (hin l hl) i).1 hi)
+
+/-- the same with the executable formula of the spec (`shortestArc`: the record length minus the largest
+    gap between consecutive canonical intervals of the union of all input bases, going round the ring):
+    whenever that is less than half the record, it is exactly the length of the result -/
+theorem connect_ring_shortest_arc (ls : List Loc) (L : Int) (hne : ls ≠ []) (hL : 0 < L)
+    (hin : ∀ l ∈ ls, RingInStrict L l) :
+    ∃ r, connect ls (some L) = .ok r ∧
+      (2 * shortestArc L (canon (ls.flatMap (·.parts))) < L →
+        r.len = shortestArc L (canon (ls.flatMap (·.parts)))) :=
+  ⟨_, connect_ring_closed ls L hne hL (fun l hl => (hin l hl).ringIn),
+    connect_ring_len_shortestArc ls L hne hL hin⟩
+
+/-- the two clauses for ALL `RingIn` inputs when the inputs are read as *spans* (`spanOf L l`, what
+    `_reduce_parts_to_location` makes of `l`: `[start, end)` for a location that does not bridge the
+    origin — a gene covers its introns —, `[x, L) + [0, y)` for an origin-spanning one; the same
+    `(lo, hi)` pairs as the driver's `spanParts`, over which the check evaluates `shortestArc`) -/
+theorem connect_ring_shortest_spans (ls : List Loc) (L : Int) (hne : ls ≠ []) (hL : 0 < L)
+    (hin : ∀ l ∈ ls, RingIn L l) (c : Loc) (hwf : areaWF L L c = true) (hlen : 2 * c.len < L)
+    (hcov : ∀ l ∈ ls, ∀ i, (spanOf L l).mem i = true → c.mem i = true) :
+    ∃ r, connect ls (some L) = .ok r ∧ r.len ≤ c.len ∧ ∀ i, r.mem i = true → c.mem i = true := by
+  refine ⟨_, connect_ring_closed ls L hne hL hin, ?_⟩
+  apply connR_shortest _ L hL (by simpa using hne) (toR_ok L hL ls hin) c hwf hlen
+  intro r hr i hi
+  obtain ⟨l, hl, rfl⟩ := List.mem_map.1 hr
+  exact hcov l hl i hi
+
+theorem connect_ring_shortest_arc_spans (ls : List Loc) (L : Int) (hne : ls ≠ []) (hL : 0 < L)
+    (hin : ∀ l ∈ ls, RingIn L l) :
+    ∃ r, connect ls (some L) = .ok r ∧
+      (2 * shortestArc L (canon (ls.flatMap fun l => (spanOf L l).parts)) < L →
+        r.len = shortestArc L (canon (ls.flatMap fun l => (spanOf L l).parts))) :=
+  ⟨_, connect_ring_closed ls L hne hL hin, connect_ring_len_shortestArc_spans ls L hne hL hin⟩
+
+/-- the two-exon reverse-strand location `[90, 100)(−), [0, 10)(−)` (exons in descending order, so
+    not origin-spanning for `location_bridges_origin`) is connected to its line hull, the whole
+    record, although the 20-base span over the origin covers its bases -/
+theorem connect_ring_two_exon_reverse :
+    connect [areaTwo 90 10 100 .rev] (some 100) = .ok (.simple ⟨0, 100, .rev⟩) := by rfl
+
+/-- the result does not depend on the order of the arguments -/
+theorem connect_ring_perm (ls₁ ls₂ : List Loc) (hp : ls₁.Perm ls₂) (L : Int) (hne : ls₁ ≠ []) (hL : 0 < L)
+    (hin : ∀ l ∈ ls₁, RingIn L l) : connect ls₁ (some L) = connect ls₂ (some L) := by
+  have hne2 : ls₂ ≠ [] := fun e => hne (by subst e; exact List.perm_nil.1 hp)
+  have hin2 : ∀ l ∈ ls₂, RingIn L l := fun l hl => hin l (hp.mem_iff.2 hl)
+  rw [connect_ring_closed ls₁ L hne hL hin, connect_ring_closed ls₂ L hne2 hL hin2,
+    connR_perm (hp.map toR) L hL (toR_ok L hL ls₁ hin)]
+
+/-- connecting the result again returns it -/
+theorem connect_ring_idem (ls : List Loc) (L : Int) (hne : ls ≠ []) (hL : 0 < L) (hin : ∀ l ∈ ls, RingIn L l)
+    (r : Loc) (hr : connect ls (some L) = .ok r) : connect [r] (some L) = .ok r := by
+  rw [connect_ring_closed ls L hne hL hin] at hr
+  injection hr with hr; subst hr
+  have hrs : ls.map toR ≠ [] := by simpa using hne
+  exact connect_self _ L hL (connR_wf _ L hL hrs (toR_ok L hL ls hin)) (connR_shape _ L hL hrs (toR_ok L hL ls hin))
+
 /-! ### shifting by an offset (ring) -/
 
 /-- shifting a single-part location by any offset on a ring of length `L` succeeds and yields
@@ -170,6 +302,43 @@ theorem extend_ring_exact (p : Part) (d L : Int) (h0 : 0 ≤ p.lo) (h1 : p.lo < 
     ∃ r, extendLocation (.simple p) d L true = .ok r ∧
       ∀ i, r.mem i = true ↔ (0 ≤ i ∧ i < L ∧ ∃ j, p.mem j = true ∧ ringAbs L i j ≤ d) :=
   ⟨_, extend_simple_ring_eq p d L h0 h1 h2 hd hdL, extSimpleRing_mem p d L h0 h1 h2 hd⟩
+
+/-- extending the forward origin-spanning span `[x, L) + [0, y)` (the shape of every origin-spanning
+    core) by any `d ≥ 0` on a circular record succeeds and covers exactly the bases within ring
+    distance `d` of the span (the whole-record branch included).  The result is a well-formed span
+    (one part, or two parts meeting at the origin) whenever neither end is pushed over the record
+    edge on its own (`d ≤ x` and `y + d ≤ L`) or the two ends meet (`L + x − y < 2d`); otherwise
+    the implementation returns three overlapping parts — see `extend_ring_area_three_parts_*`. -/
+theorem extend_ring_area_exact (x y d L : Int) (hL : 0 < L) (hy0 : 0 < y) (hyx : y ≤ x) (hxL : x < L) (hd : 0 ≤ d) :
+    ∃ r, extendLocation (areaTwo x y L .fwd) d L true = .ok r ∧
+      (∀ i, r.mem i = true ↔ (0 ≤ i ∧ i < L ∧ ∃ j, (areaTwo x y L .fwd).mem j = true ∧ ringAbs L i j ≤ d)) ∧
+      (((d ≤ x ∧ y + d ≤ L) ∨ L + x - y < 2 * d) → areaWF L L r = true) :=
+  ⟨_, extend_area_ring_eq x y d L hL hy0 hyx hxL hd, extAreaRing_mem x y d L hL hy0 hyx hxL hd,
+    extAreaRing_wf x y d L hL hy0 hyx hxL hd⟩
+
+/-- `_extend_area_location` caps the distance at `(len(record) − len(location)) // 2 + 1`; under that
+    cap the extension of an origin-spanning span is always a well-formed span -/
+theorem extend_ring_area_capped_wf (x y d L : Int) (hL : 0 < L) (hy0 : 0 < y) (hyx : y ≤ x) (hxL : x < L) (hd : 0 ≤ d)
+    (hcap : d ≤ (L - (areaTwo x y L .fwd).len) / 2 + 1) :
+    ∃ r, extendLocation (areaTwo x y L .fwd) d L true = .ok r ∧ areaWF L L r = true := by
+  refine ⟨_, extend_area_ring_eq x y d L hL hy0 hyx hxL hd, extAreaRing_wf x y d L hL hy0 hyx hxL hd (Or.inl ?_)⟩
+  have hlen : (areaTwo x y L .fwd).len = (L - x) + (y - 0) := by simp [areaTwo, Loc.len, Loc.parts, Part.len]
+  rw [hlen] at hcap
+  omega
+
+/-- without the cap: the start of `[10, 100) + [0, 5)` extended by 20 passes the origin (10 < 20)
+    while the two ends do not meet the whole-record test; the result has three overlapping parts
+    (its bases are the whole record, as they should be, but it is not a well-formed span) -/
+theorem extend_ring_area_three_parts_start :
+    extendLocation (areaTwo 10 5 100 .fwd) 20 100 true =
+      .ok (.compound [⟨90, 100, .fwd⟩, ⟨0, 100, .fwd⟩, ⟨0, 25, .fwd⟩]) ∧
+    areaWF 100 100 (.compound [⟨90, 100, .fwd⟩, ⟨0, 100, .fwd⟩, ⟨0, 25, .fwd⟩]) = false := ⟨by rfl, by rfl⟩
+
+/-- the same at the other end: `[90, 100) + [0, 80)` extended by 30 -/
+theorem extend_ring_area_three_parts_end :
+    extendLocation (areaTwo 90 80 100 .fwd) 30 100 true =
+      .ok (.compound [⟨60, 100, .fwd⟩, ⟨0, 100, .fwd⟩, ⟨0, 10, .fwd⟩]) ∧
+    areaWF 100 100 (.compound [⟨60, 100, .fwd⟩, ⟨0, 100, .fwd⟩, ⟨0, 10, .fwd⟩]) = false := ⟨by rfl, by rfl⟩
 
 /-! ### ordering -/
 
@@ -222,5 +391,63 @@ example : offsetLocation (.simple ⟨5, 10, .fwd⟩) 10 20 = .ok (.simple ⟨15,
 /-- the wrap case of `connect_ring_two` is reachable: 60 bases between along the line, 25 over the origin -/
 example : connect [.simple ⟨5, 20, .fwd⟩, .simple ⟨80, 90, .rev⟩] (some 100) = .ok (.compound [⟨80, 100, .fwd⟩, ⟨0, 20, .fwd⟩]) := by rfl
 example : offsetLocation (.simple ⟨5, 10, .fwd⟩) 12 20 = .ok (.compound [⟨17, 20, .fwd⟩, ⟨0, 2, .fwd⟩]) := by rfl
+
+/-- the hypotheses of the n-input ring theorems are satisfiable: three single parts (mixed strands) … -/
+example : ∀ l ∈ [Loc.simple ⟨5, 20, .fwd⟩, .simple ⟨80, 90, .rev⟩, .simple ⟨30, 40, .fwd⟩], RingInStrict 100 l := by
+  intro l hl
+  simp only [List.mem_cons, List.mem_nil_iff, or_false] at hl
+  rcases hl with rfl | rfl | rfl <;> exact Or.inl ⟨_, rfl, by decide, by decide, by decide⟩
+/-- … connected over the origin (60 bases of line gap vs. 25 over the origin) -/
+example : connect [.simple ⟨5, 20, .fwd⟩, .simple ⟨80, 90, .rev⟩, .simple ⟨30, 40, .fwd⟩] (some 100)
+    = .ok (.compound [⟨80, 100, .fwd⟩, ⟨0, 40, .fwd⟩]) := by rfl
+/-- the same three in another order -/
+example : connect [.simple ⟨30, 40, .fwd⟩, .simple ⟨5, 20, .fwd⟩, .simple ⟨80, 90, .rev⟩] (some 100)
+    = .ok (.compound [⟨80, 100, .fwd⟩, ⟨0, 40, .fwd⟩]) := by rfl
+/-- three single parts that stay on the line: the hull with the common strand -/
+example : connect [.simple ⟨5, 20, .rev⟩, .simple ⟨40, 45, .rev⟩, .simple ⟨30, 40, .rev⟩] (some 100)
+    = .ok (.simple ⟨5, 45, .rev⟩) := by rfl
+/-- four inputs, one of them origin-spanning -/
+example : ∀ l ∈ [areaTwo 90 10 100 .fwd, .simple ⟨20, 30, .fwd⟩, .simple ⟨70, 80, .rev⟩, .simple ⟨85, 88, .fwd⟩],
+    RingInStrict 100 l := by
+  intro l hl
+  simp only [List.mem_cons, List.mem_nil_iff, or_false] at hl
+  rcases hl with rfl | rfl | rfl | rfl
+  · exact Or.inr (Or.inl ⟨90, 10, .fwd, by decide, rfl, by decide, by decide, by decide⟩)
+  all_goals exact Or.inl ⟨_, rfl, by decide, by decide, by decide⟩
+example : connect [areaTwo 90 10 100 .fwd, .simple ⟨20, 30, .fwd⟩, .simple ⟨70, 80, .rev⟩, .simple ⟨85, 88, .fwd⟩] (some 100)
+    = .ok (.compound [⟨70, 100, .fwd⟩, ⟨0, 30, .fwd⟩]) := by rfl
+/-- a reverse-strand origin-spanning gene in Biopython's part order with two more inputs -/
+example : connect [areaTwoRev 90 10 100, .simple ⟨20, 30, .fwd⟩, .simple ⟨70, 80, .rev⟩] (some 100)
+    = .ok (.compound [⟨70, 100, .fwd⟩, ⟨0, 30, .fwd⟩]) := by rfl
+/-- an origin-spanning input together with one covering the rest: the whole record -/
+example : connect [areaTwo 90 10 100 .fwd, .simple ⟨5, 95, .fwd⟩, .simple ⟨70, 80, .rev⟩] (some 100)
+    = .ok (.simple ⟨0, 100, .fwd⟩) := by rfl
+/-- a covering span shorter than half the record exists for the four inputs above (60 < 100 / 2 fails, so take
+    a tighter list): `[95, 100) + [0, 30)` covers `[95,100)+[0,10)`, `[20,30)`; 35·2 < 100 -/
+example : areaWF 100 100 (.compound [⟨95, 100, .fwd⟩, ⟨0, 30, .fwd⟩]) = true ∧
+    2 * (Loc.compound [⟨95, 100, .fwd⟩, ⟨0, 30, .fwd⟩]).len < 100 ∧
+    connect [areaTwo 95 10 100 .fwd, .simple ⟨20, 30, .fwd⟩] (some 100) = .ok (.compound [⟨95, 100, .fwd⟩, ⟨0, 30, .fwd⟩]) :=
+  ⟨by rfl, by decide, by rfl⟩
+/-- a gene with an intron (does not bridge the origin) among the inputs -/
+example : RingInSpan 100 (.compound [⟨2, 8, .fwd⟩, ⟨12, 18, .fwd⟩]) :=
+  Or.inl ⟨by simp [Loc.parts], by decide, by
+    intro p hp; simp only [Loc.parts, List.mem_cons, List.mem_nil_iff, or_false] at hp
+    rcases hp with rfl | rfl <;> decide⟩
+example : connect [.compound [⟨2, 8, .fwd⟩, ⟨12, 18, .fwd⟩], .simple ⟨80, 90, .rev⟩, areaTwo 95 1 100 .fwd] (some 100)
+    = .ok (.compound [⟨80, 100, .fwd⟩, ⟨0, 18, .fwd⟩]) := by rfl
+/-- an origin-bridging gene with an intron among the inputs -/
+example : RingIn 100 (.compound [⟨90, 100, .fwd⟩, ⟨2, 8, .fwd⟩, ⟨12, 18, .fwd⟩]) :=
+  ⟨by simp [Loc.parts], by
+    intro p hp; simp only [Loc.parts, List.mem_cons, List.mem_nil_iff, or_false] at hp
+    rcases hp with rfl | rfl | rfl <;> decide, fun _ => ⟨_, _, by rfl⟩⟩
+example : connect [.compound [⟨90, 100, .fwd⟩, ⟨2, 8, .fwd⟩, ⟨12, 18, .fwd⟩], .simple ⟨80, 85, .rev⟩] (some 100)
+    = .ok (.compound [⟨80, 100, .fwd⟩, ⟨0, 18, .fwd⟩]) := by rfl
+/-- the span reading of a gene with an intron and of an origin-spanning input -/
+example : spanOf 100 (.compound [⟨2, 8, .fwd⟩, ⟨12, 18, .fwd⟩]) = .simple ⟨2, 18, .fwd⟩ ∧
+    spanOf 100 (areaTwoRev 95 1 100) = .compound [⟨95, 100, .fwd⟩, ⟨0, 1, .fwd⟩] := ⟨by rfl, by rfl⟩
+/-- extension of an origin-spanning span: both ends move, the result stays a two-part span -/
+example : extendLocation (areaTwo 90 10 100 .fwd) 15 100 true = .ok (.compound [⟨75, 100, .fwd⟩, ⟨0, 25, .fwd⟩]) := by rfl
+/-- … and the whole-record branch -/
+example : extendLocation (areaTwo 60 40 100 .fwd) 11 100 true = .ok (.simple ⟨0, 100, .fwd⟩) := by rfl
 
 end ASV.C04
